@@ -60,7 +60,7 @@ var props = map[string]prop{
 	"C20": {"exploration", c20.Run},
 }
 
-var raceWorkers = map[string]func(*evid.Ctx){"C10": c10.RaceWorker}
+var raceWorkers = map[string]func(*evid.Ctx){"C10": c10.RaceWorker, "C18": c18.RaceWorker}
 
 func main() {
 	if len(os.Args) < 3 {
